@@ -23,6 +23,12 @@ pub enum Seed {
 pub enum Mut {
     /// file header field 0..4 = physLength, xmlOffset, xmlLength, pageSize
     Header { field: u8, value: u64 },
+    /// header field set relative to the real file length
+    HeaderRel { field: u8, delta: i16 },
+    /// every stream length of a data packet set to zero
+    PacketZeroStreams { cloud: u8, nth: u8 },
+    /// XML length attribute of a blob and its section header length inflated consistently
+    BlobInflate { nth: u8, length: u64 },
     /// replace the nth numeric token of the XML
     XmlNumber { nth: u16, with: String },
     /// set the nth occurrence of an attribute
@@ -131,7 +137,12 @@ pub fn gen_script(s: &mut Src) -> Script {
     let mut muts = Vec::new();
     for _ in 0..n {
         muts.push(match s.weighted(&[3, 5, 5, 2, 2, 2, 3, 1, 1, 1, 4, 5, 2, 3, 1, 1, 1]) {
-            0 => Mut::Header { field: s.below(4) as u8, value: u64_pool(s, len_hint) },
+            0 => match s.weighted(&[3, 2, 1, 1]) {
+                0 => Mut::Header { field: s.below(4) as u8, value: u64_pool(s, len_hint) },
+                1 => Mut::HeaderRel { field: s.below(3) as u8, delta: *s.pick(&[-1025i16, -1024, -1023, -5, -4, -3, -2, -1, 0, 1, 4, 1020, 1024]) },
+                2 => Mut::PacketZeroStreams { cloud: s.below(3) as u8, nth: s.below(4) as u8 },
+                _ => Mut::BlobInflate { nth: s.below(4) as u8, length: *s.pick(&[9999u64, 1 << 20, 1 << 40, u64::MAX - 16, u64::MAX]) },
+            },
             1 => Mut::XmlNumber { nth: s.below(200) as u16, with: s.pick(&NUMS).to_string() },
             2 => Mut::XmlAttr {
                 name: s.pick(&["recordCount", "fileOffset", "length", "minimum", "maximum", "scale", "offset", "precision", "type"]).to_string(),
@@ -270,6 +281,42 @@ fn attr_ranges(xml: &str, name: &str) -> Vec<(usize, usize)> {
 fn apply_mut(img: &mut Img, m: &Mut) {
     match m {
         Mut::Header { field, value } => put_u64(&mut img.log, 16 + 8 * (*field as usize % 4), *value),
+        Mut::HeaderRel { field, delta } => {
+            let phys = ((img.log.len() + 1019) / 1020 * 1024) as i128;
+            put_u64(&mut img.log, 16 + 8 * (*field as usize % 4), (phys + *delta as i128).max(0) as u64);
+        }
+        Mut::PacketZeroStreams { cloud, nth } => {
+            if !img.clouds.is_empty() {
+                let c = &img.clouds[*cloud as usize % img.clouds.len()];
+                if !c.packet_starts.is_empty() {
+                    let p = c.packet_starts[*nth as usize % c.packet_starts.len()] as usize;
+                    if p + 6 <= img.log.len() && img.log[p] == 1 {
+                        let count = u16::from_le_bytes([img.log[p + 4], img.log[p + 5]]) as usize;
+                        for k in 0..count.min(4096) {
+                            put_u16(&mut img.log, p + 6 + 2 * k, 0);
+                        }
+                    }
+                }
+            }
+        }
+        Mut::BlobInflate { nth, length } => {
+            if !img.blobs.is_empty() {
+                let k = *nth as usize % img.blobs.len();
+                let b = img.blobs[k].clone();
+                if let Some(l) = pages::phys_to_log(b.file_offset) {
+                    put_u64(&mut img.log, l as usize + 8, length.saturating_add(16));
+                }
+                // the matching XML descriptor: the length attribute that follows this blob's fileOffset
+                let pat = format!("fileOffset=\"{}\" length=\"", b.file_offset);
+                if let Some(p) = img.xml.find(&pat) {
+                    let st = p + pat.len();
+                    if let Some(e) = img.xml[st..].find('"') {
+                        img.xml.replace_range(st..st + e, &length.to_string());
+                        img.xml_dirty = true;
+                    }
+                }
+            }
+        }
         Mut::XmlNumber { nth, with } => {
             let t = numeric_tokens(&img.xml);
             if !t.is_empty() {
@@ -486,7 +533,10 @@ pub fn mutate(sc: &Script) -> Result<Vec<u8>, String> {
         let at = log.len();
         log.extend_from_slice(img.xml.as_bytes());
         // only rewrite header fields that no mutation touched
-        let touched: Vec<u8> = sc.muts.iter().filter_map(|m| if let Mut::Header { field, .. } = m { Some(field % 4) } else { None }).collect();
+        let touched: Vec<u8> = sc.muts.iter().filter_map(|m| match m {
+            Mut::Header { field, .. } | Mut::HeaderRel { field, .. } => Some(field % 4),
+            _ => None,
+        }).collect();
         let phys_len = ((log.len() + 1019) / 1020 * 1024) as u64;
         if !touched.contains(&0) {
             put_u64(&mut log, 16, phys_len);
